@@ -294,6 +294,9 @@ pub fn react_x(slot: Slot, fk: Fk, bind_on: bool, zero_id: bool, direct: bool) {
         }
         (Fk::Reset, _) => {
             vassert!(!after.present, "P:C10 Reset did not release the flow");
+            if let Handle::Est(st) = &handle {
+                vassert!(st.finish_sent.load(Ordering::Relaxed), "P:C05 after the peer's Reset the application's stream still accepts writes");
+            }
         }
         (Fk::Finish, Slot::Absent) => {
             vassert!(o1 == rst, "P:C10 Finish on an unknown flow was not answered with Reset");
@@ -481,6 +484,13 @@ fn f_c06_local_drop() {
     let mut ep = endpoint(small_options(), KRng::fixed([1, 2, 3, 4]));
     let mut by = install_bystander(&ep);
     let st = install_established(&ep, ID_A, kani::any());
+    // the peer may already have finished its direction (half-closed)
+    if kani::any() {
+        let mut g = ep.task.flows.write();
+        if let Some(FlowSlot::Established(d)) = g.get_mut(&ID_A) {
+            core::mem::forget(d.disallow_read());
+        }
+    }
     let finished: bool = kani::any();
     if finished {
         vassert!(st.do_shutdown().is_some(), "P:C05 shutdown failed on a live connection");
